@@ -1,5 +1,6 @@
 import TallyVerif.Driver.Util
 import TallyVerif.Model.Totals
+import TallyVerif.Model.ReportTypes
 /-! `analyze`: `Totals.analyze` over IEEE doubles (same operations, same order as the Python loop). -/
 namespace TallyVerif.Driver
 open Lean TallyVerif TallyVerif.Totals
@@ -24,5 +25,13 @@ def handleAnalyze (j : Json) : Json :=
        ("by_merchant", .arr (s.byMerchant.map fun (k, c, v) => .arr #[.str k, .num c, floatToJson v]).toArray),
        ("by_category", .arr (s.byCategory.map fun ((c, sc), n, v) => .arr #[.str c, .str sc, .num n, floatToJson v]).toArray),
        ("by_month", .arr (s.byMonth.map fun (k, v) => .arr #[.str k, floatToJson v]).toArray)]
+
+/-- op `typetotals`: the per-category `typeTotals` of the report data over IEEE doubles - `Gen.ReportTypes.type_contrib`
+(regenerated from report.py) accumulated per category in the order the transactions are given -/
+def handleTypeTotals (j : Json) : Json :=
+  let txns := (jarr j "txns").map txnOfJson
+  let m := TallyVerif.ReportTypes.typeTotalsByCat floatNum asciiLower txns
+  obj [("by_category", .arr (m.map fun (c, t) => .arr #[.str c, floatToJson t.spending, floatToJson t.income,
+          floatToJson t.investment, floatToJson t.transfer]).toArray)]
 
 end TallyVerif.Driver
